@@ -75,16 +75,22 @@ fn parse_model(plan: &Plan) -> Option<MecabModel> {
             templates.push((l.to_string(), r.to_string()));
         }
     }
+    // lines may come in any order; the ids must be dense 0..n
     let ids = |text: String| -> Option<Vec<Vec<String>>> {
-        let mut v = vec![];
-        for (i, line) in text.lines().enumerate() {
+        let mut m: BTreeMap<usize, Vec<String>> = BTreeMap::new();
+        for line in text.lines() {
             let (id, feats) = line.split_once(' ')?;
-            if id.parse::<usize>().ok()? != i {
+            if !id.bytes().all(|b| b.is_ascii_digit()) {
                 return None;
             }
-            v.push(csv_fields(feats));
+            if m.insert(id.parse::<usize>().ok()?, csv_fields(feats)).is_some() {
+                return None; // duplicate id: outside the statement
+            }
         }
-        Some(v)
+        if m.keys().copied().ne(0..m.len()) {
+            return None;
+        }
+        Some(m.into_values().collect())
     };
     let right = ids(plan.file_str("right-id.def"))?;
     let left = ids(plan.file_str("left-id.def"))?;
@@ -168,7 +174,7 @@ fn run_conversion(
     let factor = plan.param("cost_factor") as f64;
     let r = catch(|| {
         vibrato::mecab::generate_bigram_info(
-            &mut r0, &mut r1, &mut r2, &mut r3, factor, &mut s0, &mut s1, &mut s2,
+            &mut r0, &mut r1, &mut r2, &mut r3, factor, crate::io::hand(&mut s0), crate::io::hand(&mut s1), crate::io::hand(&mut s2),
         )
         .map_err(|e| e.to_string())
     });
@@ -342,6 +348,13 @@ impl Scenario for MecabScenario {
         }
         if rng.chance(1, 2) {
             md.push_str("0.75\tU0:名0\n"); // a unigram feature line: no slash
+        }
+        // the id tables need not list the ids in ascending order
+        if rng.chance(1, 4) {
+            rng.shuffle(&mut right);
+        }
+        if rng.chance(1, 4) {
+            rng.shuffle(&mut left);
         }
         plan.set_file("feature.def", fd);
         plan.set_file("right-id.def", right.join("\n") + "\n");
@@ -574,6 +587,7 @@ impl Scenario for MecabScenario {
             }
             plan.ops.truncate(1);
             plan.ops[0].faults.clear();
+            crate::hashseam::begin_plan(&plan);
             let mut ctx = Ctx::new(false);
             let (r, files, _) = run_conversion(&plan, None, &mut ctx);
             if !matches!(r, Ok(Ok(()))) {
